@@ -43,7 +43,7 @@ def run_one(m):
         out = r.stdout
         if "facts unavailable" in out:
             return m, "BROKEN", "mutant does not compile: " + out[-400:]
-        keys = [l.strip().split(": ", 1)[0] for l in out.splitlines() if l.startswith("  " + m["property"])]
+        keys = [l.strip().split(": ", 1)[0] for l in out.splitlines() if l.startswith("  C") and l[3:5].isdigit() and ("." in l[:9])]      # rule keys (a shared rule keeps its own id: C01.R6 inside C05)
         hit = [k for k in keys if m["expect"] in k]
         if r.returncode == 1 and hit:
             extra = [k for k in keys if m["expect"] not in k]
